@@ -159,6 +159,8 @@ class Exec:
     def do_leaf(self, s):
         dt = {"f8": np.float64, "f4": np.float32, "f2": np.float16, "i8": np.int64, "b1": np.bool_}[s.get("dt", "f8")]
         a = dec_arr(s["sh"], s["v"]).astype(dt)
+        if s.get("order") == "F":
+            a = np.asfortranarray(a)
         if self.be == "mg":
             # integer / boolean tensors are constant whatever is asked (C10); `const` is only passed for floats
             if s.get("dt", "f8") in ("i8", "b1"):
